@@ -85,7 +85,13 @@ def generate(seed, tier):
         fault = {"kind": kind, "at": fault_rng.random()}
         if kind == "bad-repeat":
             fault["on"] = fault_rng.choice(["columns", "rows"])
-            fault["value"] = fault_rng.choice(["0", "-1", "x", "", "1.5", "-0", "1_0", "\u0663", "0x2", "1e1", "\uff12"])
+            fault["value"] = fault_rng.choice(["0", "-1", "x", "", "1.5", "-0", "1_0", "\u0663", "0x2", "1e1", "\uff12",
+                                              # more digits than int() converts; more cells than any sheet has
+                                              "9" * 4301, "99999999999999999999"])
+            if swarm.random() < 0.25:
+                # the count of a run of blanks (text:s text:c="N") is a number as well
+                fault["on"] = "spaces"
+                fault["value"] = fault_rng.choice(["x", "1_0", "-1", "1.5", "", "\uff12", "9" * 4301, "99999999999999999999"])
         if kind == "missing-sheet":
             sheet = len(sheets) + 1
     earlier = None
@@ -155,6 +161,16 @@ def build(scenario):
         for offset in range(position, min(position + 3, start + info.compress_size)):
             damaged[offset] ^= 0xFF
         return bytes(damaged), used, logical, True
+    if kind == "bad-repeat" and fault["on"] == "spaces":
+        # put a bad count on the first run of blanks of the requested sheet
+        marker = '<table:table table:name="Sheet%d">' % scenario["sheet"]
+        start = text.find(marker)
+        end_of_sheet = text.find("</table:table>", start)
+        match = re.compile(r'<text:s( text:c="[^"]*")?/>').search(text, max(start, 0))
+        if start < 0 or match is None or match.start() > end_of_sheet:
+            return data, used, logical, False  # no run of blanks in this sheet
+        text = text[:match.start()] + '<text:s text:c="%s"/>' % fault["value"] + text[match.end():]
+        return odf.archive(text.encode("utf-8"), features), used, logical, True
     if kind == "bad-repeat":
         # put a bad repeat count on the first cell / row of the requested sheet
         attribute = "table:number-columns-repeated" if fault["on"] == "columns" else "table:number-rows-repeated"
